@@ -46,6 +46,9 @@ class Gen(object):
             if rnd.random() < 0.6:
                 init.append(self.probe())
         blocks = [self.block_items(2) for _ in range(rnd.randint(0, 3))]
+        if rnd.random() < 0.4:
+            # a rewrite (foreach expansion) below a condition over random fields: only one branch is taken by a given solution
+            blocks.append([["block", rnd.choice(["if", "implies"]), [["block", "foreach", [["stmt", rnd.randint(0, 99)], self.probe()]]]]])
         classes[name] = {"init": init, "blocks": blocks, "dynamic": [i for i in range(len(blocks)) if rnd.random() < 0.3]}
         order.append(name)
 
